@@ -248,6 +248,13 @@ func (h *Harness) judgeConc(o *concOut) {
 	c.Case(kind, key, ok, cs, "")
 	where := fmt.Sprintf("concurrent workload %s (%s): A=step %d got topology number %d, B=step %d called=%v number %d committed-before-A=%v, process stopped right after %s",
 		name, cc.Order, cc.A, obs.ANum, cc.B, obs.BCalled, obs.BNum, obs.BCommitBefore, obs.StopAfter)
+	if !ok && cc.A < len(o.spec.Steps) && o.spec.Steps[cc.A].Kind == "accept" {
+		// the stop right after a node-accept snapshot lies inside the accept window (before its two
+		// StartNewRound calls): a restart failure there is C22's recorded finding F7, which the
+		// sequential mode does not judge under C21 either
+		c.Count("restart-fails-inside-accept-window(not judged by C21)")
+		return
+	}
 	if !ok {
 		d := "crashed"
 		if rec != nil {
